@@ -21,6 +21,9 @@ func init() {
 			extra:  []stageSpec{{harness: "api", quickS: 20, thoroughS: 300}},
 			probes: []string{"grant", "load_fail", "explicit_unload", "cancel_before_grant", "cancel_while_loading"}},
 		"C02": {level: "exploration", quickS: 40, thoroughS: 900,
+			// second stage: replies and drain seen from the HTTP layer (what routes.go does with
+			// the two reply channels is part of "receives exactly one reply")
+			extra:  []stageSpec{{harness: "api", quickS: 20, thoroughS: 300}},
 			probes: []string{"grant", "queue_full", "drain_complete", "load_fail"}},
 		"C11": {level: "exploration", quickS: 40, thoroughS: 900,
 			probes: []string{"grant", "reuse", "evict_idle_ok", "fit_checked"}},
